@@ -106,31 +106,36 @@ def nextOK (verify : Hdr → Hdr → Bool) (a : AbsStore) (last : Hdr) : Bool :=
   | some n => verify last n
   | none => true
 
-/-- the checks of an insertion, in this order: the batch is internally verified; the span
-    `[lo, hi]` is a valid range (no height 0); it is entirely above everything stored, or it is
-    disjoint from the stored set and touches it; the batch verifies against the stored
-    neighbours `lo-1` and `hi+1` if present; no hash is repeated.
+/-- where the span `[lo, hi]` may go: it is a valid range (no height 0, not reversed), and it is
+    entirely above everything stored, or it is disjoint from the stored set and touches it -/
+def placement (a : AbsStore) (lo hi : Nat) : Except Err Unit :=
+  if lo == 0 || decide (lo > hi) then .error (.constraintsNotMet .invalid)
+  else
+    let aboveAll := a.hdrs.all (fun x => decide (x.height < lo))
+    if !aboveAll && a.hdrs.any (fun x => between lo hi x.height) then
+      .error (.constraintsNotMet .overlap)
+    else if !aboveAll && !a.stored (lo - 1) && !a.stored (hi + 1) then
+      .error (.constraintsNotMet .noAdjacent)
+    else .ok ()
+
+/-- the checks of an insertion, in this order: the batch is internally verified; its span
+    `[lo, hi]` can be placed (`placement`); the batch verifies against the stored neighbours
+    `lo-1` and `hi+1` if present; no hash is repeated.
     `ok none` = empty batch (nothing to do), `ok (some (lo, hi))` = accepted span. -/
 def insertCheck (verify : Hdr → Hdr → Bool) (a : AbsStore) (batch : List Hdr) :
     Except Err (Option (Nat × Nat)) :=
   match batch.head?, batch.getLast? with
   | some first, some last =>
-    let lo := first.height
-    let hi := last.height
     if !chainOK verify batch then .error .headersVerificationFailed
-    else if lo == 0 || decide (lo > hi) then .error (.constraintsNotMet .invalid)
     else
-      let aboveAll := a.hdrs.all (fun x => decide (x.height < lo))
-      if !aboveAll && a.hdrs.any (fun x => between lo hi x.height) then
-        .error (.constraintsNotMet .overlap)
-      else if !aboveAll && !a.stored (lo - 1) && !a.stored (hi + 1) then
-        .error (.constraintsNotMet .noAdjacent)
-      else
+      match placement a first.height last.height with
+      | .error e => .error e
+      | .ok () =>
         if !prevOK verify a first || !nextOK verify a last then .error .neighborsVerificationFailed
         else
           match firstDupHash (a.hdrs.map (·.hash)) batch with
           | some q => .error (.hashExists q)
-          | none => .ok (some (lo, hi))
+          | none => .ok (some (first.height, last.height))
   | _, _ => .ok none
 
 /-- insertion of a batch: if the checks pass the headers are stored and their heights leave
